@@ -10,6 +10,8 @@ LEVEL = 'exploration'
 QUICK_S = 45
 THOROUGH_S = 480
 CHUNK = 40
+# 'compile returns ...': a call that never comes back (wall cap of 60 s, then 240 s, for worlds that take milliseconds) is a violation of clause 1
+HANG_IS_VIOLATION = True
 REAL_COMPONENTS = ['pysmi.compiler.MibCompiler.compile', 'parser (SmiV1Compat dialect)', 'SymtableCodeGen', 'JsonCodeGen (about 4% of worlds: PySnmpCodeGen)',
                    'pysmi.borrower.AnyFileBorrower (flavour test)', 'pysmi.searcher.StubSearcher (share of worlds)', 'real-filesystem worlds (about 15 %): FileReader (plain, with .index), ZipReader, HttpReader (behind a simulated web server), AnyFileSearcher, StubSearcher, AnyFileBorrower, FileWriter - tapped in place', 'CallbackReader sources sharing one look-up function and real StubSearcher objects in a share of the simulated worlds']
 STUB_COMPONENTS = ['sources (outcome table: ok / defective copy / not found / reader error)', 'file-like and stub-like searchers (answer table)',
